@@ -23,6 +23,7 @@ mod c05core;
 mod c05;
 mod c13;
 mod c14;
+mod c14seq;
 mod c17;
 mod c19;
 mod c20;
